@@ -129,4 +129,87 @@ theorem respMatch_no (tail : Bytes) (c : UInt8) (t : Bytes) (ht : tail = c :: t)
       rw [List.takeWhile_cons, if_pos hx, ih (fun y hy => hl y (by simp [hy]))]
   simp [h1, h2 _ hlf]
 
+/-- a line `{n}`: a literal of `n` octets follows -/
+theorem readLine_size (st : RState) (ds rest : Bytes) (hne : ds ≠ []) (hall : ∀ d ∈ ds, B.isDigit d = true)
+    (hp : pending st = 123 :: (ds ++ [125]) ++ 13 :: 10 :: rest) :
+    ∃ st1, readLine st = .ok (.literal (B.decToNat ds), st1) ∧ pending st1 = rest ∧
+      st1.errcode = st.errcode ∧ st1.errmsg = st.errmsg := by
+  have hl : splitCRLF (123 :: (ds ++ [125])) = none := by
+    apply splitCRLF_none_of_noLF
+    intro x hx
+    simp only [List.mem_cons, List.mem_append, List.not_mem_nil, or_false] at hx
+    rcases hx with rfl | hx | rfl
+    · decide
+    · have := hall x hx
+      intro h; subst h; simp [B.isDigit] at this
+    · decide
+  obtain ⟨st1, h1, h2, h3, h4, _⟩ := rawLine_pending st _ rest hp hl
+  refine ⟨st1, ?_, h2, h3, h4⟩
+  unfold readLine
+  rw [h1]
+  have hsz := sizeMatch_header (B.decToNat ds) ds hne hall rfl []
+  simp only [List.isEmpty_cons, Bool.false_eq_true, if_false, hsz]
+
+/-- an empty line -/
+theorem readLine_empty (st : RState) (rest : Bytes) (hp : pending st = 13 :: 10 :: rest) :
+    ∃ st1, readLine st = .ok (.line [], st1) ∧ pending st1 = rest ∧
+      st1.errcode = st.errcode ∧ st1.errmsg = st.errmsg := by
+  obtain ⟨st1, h1, h2, h3, h4, _⟩ := rawLine_pending st [] rest (by simpa using hp) rfl
+  refine ⟨st1, ?_, h2, h3, h4⟩
+  unfold readLine
+  rw [h1]
+  simp
+
+/-- **a literal body is read by count**: `{n}` CRLF, `n` octets of anything (lines that look like
+    `OK`, `NO`, `{5}` … included), CRLF, `OK` CRLF — the content returned is exactly those `n` octets
+    (completed with a final CRLF when they do not end with one) and exactly the rest stays pending -/
+theorem respLoop_literal_ok (nbl : Option Nat) (fuel : Nat) (st : RState) (ds body rest : Bytes) (hne : ds ≠ [])
+    (hall : ∀ d ∈ ds, B.isDigit d = true) (hval : B.decToNat ds = body.length)
+    (hp : pending st = 123 :: (ds ++ [125]) ++ 13 :: 10 :: (body ++ 13 :: 10 :: (sb "OK" ++ 13 :: 10 :: rest))) :
+    ∃ st', respLoop nbl (fuel + 3) [] 0 st =
+        .ok (⟨some .OK, none, if endsWithCRLF body then body else body ++ CRLF⟩, st') ∧ pending st' = rest := by
+  obtain ⟨st1, h1, hp1, _, _⟩ := readLine_size st ds _ hne hall hp
+  have hlen : body.length ≤ (pending st1).length := by rw [hp1]; simp
+  obtain ⟨st2, h2, hp2, _, _, _⟩ := (readBlock_spec body.length st1).1 hlen
+  rw [hp1] at h2 hp2
+  simp only [List.take_left, List.drop_left] at h2 hp2
+  obtain ⟨st3, h3, hp3, _, _⟩ := readLine_empty st2 _ hp2
+  obtain ⟨st4, h4, hp4, _, _⟩ := readLine_ok st3 (sb "OK") rest none hp3 (by decide) (by decide) (by decide) (by decide) rfl
+  refine ⟨st4, ?_, hp4⟩
+  by_cases he : endsWithCRLF body = true
+  · -- body ends with CRLF: literal, empty line, status
+    simp only [he, if_true]
+    have step1 : respLoop nbl (fuel + 3) [] 0 st = respLoop nbl (fuel + 2) body 0 st2 := by
+      rw [show fuel + 3 = (fuel + 2) + 1 from rfl, respLoop, h1]
+      simp only [hval, h2, List.nil_append, he, if_true]
+    have step2 : respLoop nbl (fuel + 2) body 0 st2 = respLoop nbl (fuel + 1) body 0 st3 := by
+      rw [show fuel + 2 = (fuel + 1) + 1 from rfl, respLoop, h3]
+      simp
+    have step3 : respLoop nbl (fuel + 1) body 0 st3 = .ok (⟨some .OK, none, body⟩, st4) := by
+      rw [respLoop, h4]
+    rw [step1, step2, step3]
+  · simp only [he, Bool.false_eq_true, if_false]
+    have step1 : respLoop nbl (fuel + 3) [] 0 st = respLoop nbl (fuel + 2) (body ++ [] ++ CRLF) 0 st3 := by
+      rw [show fuel + 3 = (fuel + 2) + 1 from rfl, respLoop, h1]
+      simp only [hval, h2, List.nil_append, he, Bool.false_eq_true, if_false, h3]
+    have step2 : respLoop nbl (fuel + 2) (body ++ [] ++ CRLF) 0 st3 = .ok (⟨some .OK, none, body ++ [] ++ CRLF⟩, st4) := by
+      rw [show fuel + 2 = (fuel + 1) + 1 from rfl, respLoop, h4]
+    rw [step1, step2]
+    simp
+
+theorem readResponse_literal_ok (nbl : Option Nat) (st : RState) (ds body rest : Bytes) (hne : ds ≠ [])
+    (hall : ∀ d ∈ ds, B.isDigit d = true) (hval : B.decToNat ds = body.length)
+    (hp : pending st = 123 :: (ds ++ [125]) ++ 13 :: 10 :: (body ++ 13 :: 10 :: (sb "OK" ++ 13 :: 10 :: rest))) :
+    ∃ st', readResponse nbl st =
+        .ok (⟨some .OK, none, if endsWithCRLF body then body else body ++ CRLF⟩, st') ∧ pending st' = rest := by
+  unfold readResponse
+  have hlen : 2 ≤ st.buf.length + st.net.stream.length := by
+    have : (pending st).length = st.buf.length + st.net.stream.length := by simp [pending]
+    rw [← this, hp]
+    simp
+    omega
+  obtain ⟨k, hk⟩ : ∃ k, st.buf.length + st.net.stream.length + 1 = k + 3 := ⟨st.buf.length + st.net.stream.length - 2, by omega⟩
+  rw [hk]
+  exact respLoop_literal_ok nbl k st ds body rest hne hall hval hp
+
 end ReplyLine
